@@ -777,7 +777,7 @@ def inconclusive_on_error(fn):
     return w
 
 
-VALIDATOR_PROBES = ["", "a", "http://x", "https://x", "ftp://x", "httpx", 0, 1, -1, True, False, None, 1.5, [], ["a"], ["a", "b"], ["a", 1], [1], [["a"]], [None],
+VALIDATOR_PROBES = ["", "a", "http://x", "https://x", "ftp://x", "httpx", "http://", "https://", "http://a", "https://a.example/b?c", "HTTP://x", "xhttp://x", " http://x", "http:/x", 0, 1, -1, True, False, None, 1.5, [], ["a"], ["a", "b"], ["a", 1], [1], [["a"]], [None],
                     ("a",), {}, {"a": 1}, b"a"]
 
 VALIDATOR_SPEC = {
